@@ -459,6 +459,22 @@ ExecStmt(s, st, P) ==
                          ELSE IF ck.v.bv THEN PopTo(ExecBlock(s.elifs[k].body, [ck.st EXCEPT !.env = Append(@, <<>>)], P), n)
                          ELSE Elifs(k + 1, ck.st) IN
               Elifs(1, c.st)
+    [] s.k = "matchs" ->        \* statement-level match: the FIRST arm whose pattern matches and whose guard holds runs its block
+         LET n == Len(st.env)
+             s0 == EvalE(s.subj, st, P) IN
+         IF ~s0.ok THEN ErrSt(st, s0)
+         ELSE LET RECURSIVE SArms(_, _)
+                  SArms(k, cur) ==
+                    IF k > Len(s.arms) THEN [cur EXCEPT !.sig = "err", !.err = "UNSPECIFIED: no arm matched"]
+                    ELSE LET m == MatchPat(s.arms[k].pat, s0.v) IN
+                         IF ~m.ok THEN SArms(k + 1, cur)
+                         ELSE LET inner == [cur EXCEPT !.env = Append(@, m.binds)] IN
+                              IF s.arms[k].guard = <<>> THEN PopTo(ExecBlock(s.arms[k].body, inner, P), n)
+                              ELSE LET g == EvalE(s.arms[k].guard[1], inner, P) IN
+                                   IF ~g.ok THEN PopTo(ErrSt(inner, g), n)
+                                   ELSE IF g.v.bv THEN PopTo(ExecBlock(s.arms[k].body, g.st, P), n)
+                                   ELSE SArms(k + 1, PopTo(g.st, n)) IN
+              SArms(1, s0.st)
     [] s.k = "while" -> ExecWhile(s, st, P)
     [] s.k = "for" ->
          LET it == s.iter IN
